@@ -388,6 +388,29 @@ fn dgram_strategy() -> impl Strategy<Value = DgramCase> {
     (prop::collection::vec((hdr, body).prop_map(|((a, b, c), d)| (a, b, c, d)), 1..24), 0u8..4).prop_map(|(dgrams, timer_every)| DgramCase { dgrams, timer_every })
 }
 
+/// Seed corpus for the libFuzzer target: valid (unmutated) messages of every format, one file per
+/// (message, applicable decoder), in the target's input layout.
+pub fn emit_corpus(dir: &str, n: usize, seed: u64) -> usize {
+    use crate::harness::codec::FUZZ_DECODERS;
+    let _ = std::fs::create_dir_all(dir);
+    let part = vcore::Part::new("C05", "corpus", vcore::Tier::Quick, seed, "");
+    let cases = part.draw("corpus", n, &case_strategy());
+    let mut written = 0;
+    for (i, c) in cases.iter().enumerate() {
+        let (bytes, decs) = encode_base(&c.base);
+        for d in decs {
+            if let Some(idx) = FUZZ_DECODERS.iter().position(|x| *x == d) {
+                let mut f = vec![idx as u8, [0u8, 1, 3, 255][i % 4]];
+                f.extend_from_slice(&bytes);
+                if f.len() <= 4096 && std::fs::write(format!("{}/seed-{:04}-{}", dir, i, idx), &f).is_ok() {
+                    written += 1;
+                }
+            }
+        }
+    }
+    written
+}
+
 pub fn checks() -> Vec<Box<dyn SubCheck>> {
     vec![
         Box::new(MtuSweep),
